@@ -89,14 +89,44 @@ var caseOverride int
 func register(p *Prop) { props[p.ID] = p }
 
 // safeExec runs the implementation under recover; a panic is an observation.
-func safeExec(p *Prop, op string) (out string) {
-	defer func() {
-		if e := recover(); e != nil {
-			out = "panic " + oneLine(fmt.Sprint(e))
-		}
-		resetOptions()
+func safeExec(p *Prop, op string) string {
+	if hung {
+		return "skipped-after-hang"
+	}
+	done := make(chan string, 1)
+	go func() {
+		var out string
+		defer func() {
+			if e := recover(); e != nil {
+				out = "panic " + oneLine(fmt.Sprint(e))
+			}
+			resetOptions()
+			done <- out
+		}()
+		out = p.Exec(op)
 	}()
-	return p.Exec(op)
+	select {
+	case out := <-done:
+		return out
+	case <-time.After(opTimeout()):
+		// the goroutine cannot be stopped and may hold package state: everything after this op is
+		// skipped and the run ends with this op as the failing input
+		hung = true
+		return "hang: the call did not return within " + opTimeout().String()
+	}
+}
+
+// hung is set once an implementation call failed to return (non-termination is a failure of
+// every property: "returns exactly ..." presupposes that it returns).
+var hung bool
+
+func opTimeout() time.Duration {
+	if s := os.Getenv("VERIF_OP_TIMEOUT"); s != "" {
+		if d, err := time.ParseDuration(s); err == nil {
+			return d
+		}
+	}
+	return 180 * time.Second
 }
 
 func oneLine(s string) string {
@@ -224,7 +254,15 @@ func evaluate(p *Prop, driver string, ops []string, known []knownFinding, res *R
 		return err
 	}
 	for i, op := range ops {
-		v := p.Judge(op, impl[i], model[i])
+		var v Verdict
+		switch {
+		case strings.HasPrefix(impl[i], "hang:"):
+			v = Verdict{Nontrivial: true, OracleFail: "the implementation did not terminate on this input (" + impl[i] + ")", Sig: "hang"}
+		case impl[i] == "skipped-after-hang":
+			v = Verdict{Skipped: true}
+		default:
+			v = p.Judge(op, impl[i], model[i])
+		}
 		res.Evaluations++
 		for _, t := range v.Tags {
 			res.Tags[t]++
@@ -310,7 +348,7 @@ func runProp(p *Prop, tier string, seed int64, driver, verifDir string, mult int
 	}
 	// several derived seeds so that one run covers more than one PRNG stream
 	chunks := 4
-	for c := 0; c < chunks; c++ {
+	for c := 0; c < chunks && !hung; c++ {
 		r := NewRng(uint64(seed)*1000003 + uint64(c)*7919 + 17)
 		if p.Gen != nil {
 			ops := p.Gen(r, n/chunks)
@@ -319,12 +357,12 @@ func runProp(p *Prop, tier string, seed int64, driver, verifDir string, mult int
 			}
 		}
 	}
-	if p.Extra != nil {
+	if p.Extra != nil && !hung {
 		p.Extra(NewRng(uint64(seed)*31+5), tier, res)
 	}
 
 	// search phase: the correspondence broke but no failing input is known yet
-	if len(res.CorrMismatch) > 0 && len(res.OracleFails) == 0 && mult == 1 {
+	if len(res.CorrMismatch) > 0 && len(res.OracleFails) == 0 && mult == 1 && !hung {
 		res.SearchRan = true
 		r := NewRng(uint64(seed)*977 + 99)
 		if p.Gen != nil {
